@@ -114,6 +114,9 @@ func concreteValue(classes []string, variant int) string {
 			sb.WriteString(`"`)
 		case "b":
 			sb.WriteString(`\`)
+		case "n":
+			sb.WriteString(string(rune('1' + k%3)))
+			k++
 		default:
 			if variant < len(cChars) {
 				sb.WriteString(cChars[variant])
